@@ -857,6 +857,8 @@ share("C18", ["TOP.jwt_checker_verify", "TOP.jwt_builder_generate", "C01.all.jwt
 share("C10", ["C15.jwt_claim_set", "C15.jwt_header_set", "C15.__setter"])
 share("C17", ["C15.jwt_claim_set", "C15.jwt_header_set", "C10.jwt_head_setup", "C10.jwt_encode_str", "C17.jwt_malloc", "C17.__jwt_freemem", "C17.jwt_set_alloc"])
 share("C04", ["C15.jwt_claim_get", "C06.jwt_base64uri_decode_to_json"])
+# what a callback can do to the token object is what these wrappers can do: they reach the JSON documents only (C19)
+share("C19", ["C15.jwt_header_set", "C15.jwt_header_del", "C15.jwt_claim_set", "C15.jwt_claim_del", "C15.jwt_header_get", "C15.jwt_claim_get"])
 share("C14", ["C15.__getter", "C15.__setter", "C15.__setter_json", "C15.__deleter"])
 share("C06", ["C17.jwt_new", "C17.jwt_free"])
 share("C13", ["C17.jwt_new", "C17.jwt_free"])
